@@ -698,7 +698,7 @@ func (v *Verifier) heapFrameFormula(st *State, k string) *Term {
 		if k == gBigBits || k == gAtomic || k == gBigVal {
 			cov = append(cov, c.ILt(c.Inti(0), r)) // objects allocated during the call
 		}
-		if k == gChanLen || k == gChanData || k == gChanMsgs || k == gRdPos {
+		if k == gChanLen || k == gChanData || k == gChanMsgs || k == gRdPos || k == gChanClosed || k == gChanDrained {
 			// byte logs / read positions of local variables (bytes.Buffer declared in the function; identities
 			// below -2^40, see ptrIdentity) and of objects allocated during the call (bytes.NewReader)
 			cov = append(cov, c.ILe(r, c.Inti(localIDBase)), c.ILt(c.Inti(0), r))
